@@ -111,13 +111,14 @@ def get_peak_array_indices(values, ptype='all'):
     # cleaned_values *= np.sign(cleaned_values[1])  # ensure first value is increasing
     peak_cleaned_indices = determine_indices_of_peaks_for_cleaned_array(cleaned_values)
     peak_full_indices = np.take(non_zero_indices, peak_cleaned_indices)
+    first_move = values[peak_full_indices[1]] - values[peak_full_indices[0]]
     if ptype == 'min':
-        if values[1] - values[0] <= 0:
+        if first_move <= 0:
             return peak_full_indices[1::2]
         else:
             return peak_full_indices[::2]
     elif ptype == 'max':
-        if values[1] - values[0] > 0:
+        if first_move > 0:
             return peak_full_indices[1::2]
         else:
             return peak_full_indices[::2]
